@@ -1419,12 +1419,16 @@ func Run(r *common.Run) error {
 		}
 		for _, l := range lines {
 			f := strings.Fields(l)
+			if len(f) >= 3 && f[1] == "handoff" {
+				handoffCase(r, f[2] == "true")
+			}
 			if len(f) >= 4 && f[0] == "C18" && f[1] == "muc" {
 				runCase(r, parseAddrs(f[2]), replayable(f[3]), "replay")
 			}
 		}
 		return nil
 	}
+	runHandoff(r)
 	r.Mark("case concurrent 0")
 	runConcurrent(r, 3, r.Pick(10, 40))
 	if r.Race() {
